@@ -1,5 +1,6 @@
 import CookModel.Lemmas.GroupConserve
 import CookModel.Lemmas.GroupAudit
+import CookModel.Lemmas.ParsedScaled
 import CookModel.Props.C09
 /-
   C10  Grouping and listing ingredients conserves quantities.
@@ -456,6 +457,54 @@ theorem C10_cookware_merge_conserves (g other : List (Value Rat)) :
   exact ⟨r, hr, h _ (vEnd_additive false), h _ (vEnd_additive true),
     valueTexts_perm (fun t => h _ (vText_additive t))⟩
 
+/-! ## every recipe the parser returns (link to C06, Lemmas/ParsedScaled.lean)
+
+  `ParsedScaled r`: `r` is what `parse` returns for SOME environment and input — valid or alongside any
+  diagnostics — scaled by `scale(factor)` with any factor and converter, or by `default_scale`.  For
+  these recipes the hypotheses `RefsConsistent` / `RefsInRange` of the theorems above are theorems
+  (C06's invariant, carried through scaling), so "for all valid recipes and sequences of recipes" holds
+  without an assumption on the recipe. -/
+
+/-- the reference tables of every parsed and scaled recipe are consistent and in range -/
+theorem C10_parsed_recipe_consistent {r : ScaledRecipe Rat} (h : ParsedScaled r) :
+    RefsConsistent r.ingredients ∧ RefsInRange r.ingredients :=
+  ⟨h.refsConsistent, h.refsConsistent.inRange⟩
+
+/-- `C10_group_counts_once` for every parsed and scaled recipe: `all_quantities` of a definition never
+    hits the index panic and yields its own quantity and those of its references, each once; nothing
+    foreign is counted; every ingredient that stands for an ingredient is counted under exactly one
+    definition. -/
+theorem C10_parsed_group_counts_once {r : ScaledRecipe Rat} (h : ParsedScaled r) :
+    (∀ d i, r.ingredients[d]? = some i → i.relation.isDefinition = true →
+      allQuantities r.ingredients i = some (quantitiesAt r.ingredients (groupIndices i d)) ∧
+      (groupIndices i d).Nodup ∧
+      ∀ j ∈ groupIndices i d, ∃ ij, r.ingredients[j]? = some ij ∧ ij.owned = true) ∧
+    (∀ j ij, r.ingredients[j]? = some ij → ij.owned = true →
+      ∃ d i, r.ingredients[d]? = some i ∧ i.relation.isDefinition = true ∧ j ∈ groupIndices i d ∧
+        ∀ d' i', r.ingredients[d']? = some i' → i'.relation.isDefinition = true → j ∈ groupIndices i' d' →
+          d' = d) :=
+  C10_group_counts_once h.refsConsistent
+
+/-- `C10_group_conserves` for every ingredient of every parsed and scaled recipe -/
+theorem C10_parsed_group_conserves {c : Converter Rat} (hc : c.Sound) (ord : MapOrder Rat) (hord : ord.IsPerm)
+    {r : ScaledRecipe Rat} (h : ParsedScaled r) (i : Ingredient (Value Rat)) (hi : i ∈ r.ingredients)
+    (cls : QClass) (hlin : LinearClass c cls) :
+    ∃ g, groupQuantities c r.ingredients i = some g ∧
+      Holds c cls (g.iter ord)
+        (i.quantity.toList ++ quantitiesAt r.ingredients i.relation.relation.referencedFrom) :=
+  C10_group_conserves hc ord hord r.ingredients i (h.refsConsistent.inRange i hi) cls hlin
+
+/-- `C10_list_conserves` for every sequence of parsed and scaled recipes: no panic, and each entry holds
+    what it held plus the quantities of the listed definitions displayed under its name, with their
+    references. -/
+theorem C10_parsed_list_conserves {c : Converter Rat} (hc : c.Sound) (ord : MapOrder Rat) (hord : ord.IsPerm)
+    (rs : List (ScaledRecipe Rat)) (hr : ∀ r ∈ rs, ParsedScaled r)
+    (m : IngredientList Rat) (cls : QClass) (hlin : LinearClass c cls) :
+    ∃ m', addRecipes ord c m rs = some m' ∧
+      ∀ name, Holds c cls (entryQuantities ord m' name)
+        (entryQuantities ord m name ++ rs.flatMap (recipeQuantities name)) :=
+  C10_list_conserves hc ord hord rs (fun r h => (hr r h).refsConsistent.inRange) m cls hlin
+
 /-! ## witnesses and non-vacuity -/
 
 namespace C10Witness
@@ -612,5 +661,22 @@ example : (Converter.bundled Rat).Sound ∧ LinearClass (Converter.bundled Rat) 
     C10Witness.idOrd.IsPerm ∧ C10Witness.revOrd.IsPerm ∧ RefsConsistent C10Witness.refRecipe :=
   ⟨C09_bundled_sound, C10_bundled_linear _ (by decide), C10Witness.idOrd_isPerm,
    C10Witness.revOrd_isPerm, C10Witness.refRecipe_consistent⟩
+
+/-- `ParsedScaled` is inhabited (the analysis has an output, here on the empty input; `lexFrom` is
+    defined by well-founded recursion, so inputs with content do not reduce by `rfl` — the content of the
+    hypothesis is exercised by `refRecipe_consistent` above) -/
+example : ∃ r, ParsedScaled r := by
+  let cs : CharSpec :=
+    ⟨fun c => c == ' ', fun _ => false, fun c => c == 'x', fun c => c == ' ' || c == '\n', fun c => c == 'x'⟩
+  let env : Env := ⟨cs, ⟨Gen.EXT_MODES⟩, fun _ => none, fun _ _ => .ok, fun c => [c], 0⟩
+  have hsome : (parseRecipe (α := Rat) env []).output.isSome = true := by
+    have hl : ∀ off, lexFrom cs off [] = [] := by intro off; unfold lexFrom; rfl
+    have hf : parseFrontmatter cs [] = none := by rfl
+    unfold parseRecipe pullEvents
+    simp only [env, hf, lex, hl]
+    rfl
+  cases hc : (parseRecipe (α := Rat) env []).output with
+  | none => rw [hc] at hsome; cases hsome
+  | some c => exact ⟨_, env, [], c, hc, Or.inr rfl⟩
 
 end Cook
